@@ -46,6 +46,12 @@ fn program_case(ctx: &mut Ctx, tag: &str, program: &quil_rs::Program) {
     ctx.case(tagged(tag, vec![input]), || run_from_program(program, &DefaultHandler));
 }
 
+fn ast_case(ctx: &mut Ctx, text: &str) {
+    let instructions = parsed_instructions(text);
+    let (program, parts) = ast_parts(&instructions);
+    ctx.case(tagged("ast", parts), || run_from_program(&program, &DefaultHandler));
+}
+
 fn nodes_sexp(v: Vec<ScheduledGraphNode>) -> Sexp {
     let mut w: Vec<u64> = v.into_iter().map(|n| node_code(1000, n)).collect();
     w.sort();
@@ -186,5 +192,21 @@ fn run(ctx: &mut Ctx) {
         let text = program_text(&mut rng, &cfg);
         let program = parse(&text);
         program_case(ctx, "random", &program);
+    }
+
+    // 5. "ast" stream: full AST on the wire, blocks and handler answers derived by the driver (HandlerFromAst)
+    for text in CORPUS {
+        ast_case(ctx, &format!("{HDR}{text}"));
+    }
+    let n_ast = if quick { 3000 } else { 100_000 };
+    let mut rng = ctx.rng(124);
+    for i in 0..n_ast {
+        let cfg = match i % 3 {
+            0 => ProgCfg { nframes: 2, nreg: 1, max_len: 8, rf_pct: 100, cf_pct: 0, bad_permille: 0 },
+            1 => ProgCfg { nframes: 4, nreg: 2, max_len: 10, rf_pct: 85, cf_pct: 6, bad_permille: 3 },
+            _ => ProgCfg { nframes: 5, nreg: 2, max_len: 14, rf_pct: 70, cf_pct: 10, bad_permille: 5 },
+        };
+        let text = ast_program_text(&mut rng, &cfg);
+        ast_case(ctx, &text);
     }
 }
